@@ -47,7 +47,8 @@ def body_local(cube, **kw):
     t = pick(kw['t'], LTYPES)
     with notrace():
         g = new_graph()
-        nodes = add_nodes(g, [t] + ['or'] * k + ['or', 'and'])
+        ptypes = [['or', 'defense', 'exist', 'and'][cube.get('pt', 0)]] + ['or'] * max(0, k - 1)
+        nodes = add_nodes(g, [t] + ptypes[:k] + ['or', 'and'])
         x, parents, decoys = nodes[0], nodes[1:1 + k], nodes[1 + k:]
         for p in parents:
             link(p, x)
@@ -131,6 +132,8 @@ def body_global(cube, **kw):
             a.compromise(nodes[i]); reached[i] = True
     for i in cube.get('rb', []):
         b.compromise(nodes[i])
+    if cube.get('ep'):
+        a.entry_points = [nodes[n - 1], nodes[0]]     # entry points are not necessarily reached (e.g. after an undo)
     before = snap(g)
     surf = get_attack_surface(a)
     if not same_snap(before, snap(g)):
@@ -156,7 +159,7 @@ def body_global(cube, **kw):
     # incremental update = recomputation
     new = []
     for i in range(n):
-        if kw['nw%d' % i]:
+        if ('nw%d' % i) in kw and kw['nw%d' % i]:
             a.compromise(nodes[i]); reached[i] = True
             new.append(nodes[i])
     before = snap(g)
@@ -213,22 +216,22 @@ def queries(tier):
         for i in range(k):
             ps += [B('n%d' % i), B('ca%d' % i)] + ([B('cb%d' % i)] if i == 0 else [])
         w = {p.name: (1 if p.typ == 'int' else True) for p in ps}
-        qs.append(Query(name='local%d' % k, body=body_local, params=ps, cubes=[{'k': k}], split=['t'],
+        qs.append(Query(name='local%d' % k, body=body_local, params=ps, cubes=[{'k': k, 'pt': pt} for pt in (range(4) if k else [0])], split=['t'],
                         timeout=600, witnesses=[({'k': k}, w)],
-                        bound='one node of every type %s with symbolic viability, %d parents each with symbolic '
+                        bound='one node of every type %s with symbolic viability, %d parents (the first of type or / defense / exist / and) each with symbolic '
                               'necessity and compromised-by bits for two attackers, two decoy children' % (LTYPES, k)))
 
-    def glob(name, n, tvecs, maxe, rbs, timeout, split=()):
+    def glob(name, n, tvecs, maxe, rbs, timeout, split=(), nodbl=False, nnew=None):
         ebits = ['e%d%d' % (i, j) for i in range(n) for j in range(n)]
         ps = [B('v%d' % i) for i in range(n)] + [B('c%d' % i) for i in range(n)] + [B(e) for e in ebits] + \
-             [B('ra%d' % i) for i in range(n)] + [B('nw%d' % i) for i in range(n)]
+             [B('ra%d' % i) for i in range(n)] + [B('nw%d' % i) for i in range(n if nnew is None else nnew)]
         w = {p.name: True for p in ps}
         w.update({e: False for e in ebits}); w.update({'e01': True, 'nw0': False, 'ra1': False})
         return Query(name=name, body=body_global, params=ps,
-                     cubes=[{'n': n, 'types': list(ts), 'rb': rb, 'dbl': d} for ts in tvecs for rb in rbs for d in (False, True)],
+                     cubes=[{'n': n, 'types': list(ts), 'rb': rb, 'dbl': d, 'ep': d} for ts in tvecs for rb in rbs for d in ((False,) if nodbl else (False, True))],
                      pre=['%s <= %d' % (' + '.join(ebits), maxe)] if maxe is not None else [],
                      timeout=timeout, split=list(split),
-                     witnesses=[({'n': n, 'types': list(tvecs[-1]), 'rb': rbs[-1], 'dbl': True}, w)],
+                     witnesses=[({'n': n, 'types': list(tvecs[-1]), 'rb': rbs[-1], 'dbl': not nodbl, 'ep': not nodbl}, w)],
                      bound='%d nodes, type vectors %s, symbolic viability/necessity flags, every edge set%s incl. self-loops, single and doubled (parallel) edges, '
                            'every reached set of attacker a, second attacker reached %s, every set of newly compromised nodes'
                            % (n, [list(t) for t in tvecs], '' if maxe is None else ' with <= %d edges' % maxe, rbs))
@@ -237,7 +240,7 @@ def queries(tier):
         qs.append(glob('global2', 2, list(P(['or', 'and'], repeat=2)), None, [[0]], 600, split=['ra0', 'ra1']))
     else:
         qs.append(glob('global2', 2, list(P(['or', 'and', 'defense', 'exist'], repeat=2)), None, [[], [0], [0, 1]], 1500, split=['ra0', 'ra1']))
-        qs.append(glob('global3', 3, [('or', 'and', 'and'), ('and', 'or', 'or'), ('and', 'and', 'or')], 2, [[0, 1]], 1700, split=['ra0', 'ra1', 'ra2']))
+        qs.append(glob('global3', 3, [('or', 'and', 'and'), ('and', 'and', 'or')], 2, [[0, 1]], 1700, split=['ra0', 'ra1', 'ra2'], nodbl=True, nnew=2))
     for ts in P(['defense', 'or', 'exist'], repeat=2):
         if 'defense' not in ts:
             continue
